@@ -177,7 +177,43 @@ def c_parse_lists():
             tuple((c.name, c.version, c.validation_level) for c in cmps))
 
 
-CALLS = [c_parse25_tol, c_parse25_strict_nogroups, c_parse27_strict, c_parse23_tol, c_parse24_bad_tol, c_parse24_bad_strict,
+def c_zfield_datatypes():
+    # a Z-field with an explicit datatype whose base / complex status depends on the version
+    out = []
+    for dt, v in (('TN', '2.4'), ('IS', '2.5'), ('CM', '2.1'), ('SNM', '2.7'), ('GTS', '2.6'), ('CX', '2.3'), ('TM', '2.2'), ('DTM', '2.5')):
+        def mk(dt=dt, v=v):
+            f = Field('ZAB_1', datatype=dt, version=v, validation_level=TOL)
+            return (f.datatype, f.version, sorted(f.structure_by_name or {})[:3], repr(f.reference[:1]))
+        out.append(sig(mk))
+    return tuple(out)
+
+
+def c_component_retype():
+    # under TOLERANT a named component of complex datatype can be given another complex datatype
+    c = Component('CX_10', version='2.5', validation_level=TOL)
+    c.datatype = 'CE'
+    c.ce_1 = 'X'
+    return (c.datatype, c.to_er7(dict(STD)), sorted(c.structure_by_name)[:3])
+
+
+def c_component_cx10():
+    c = Component('CX_10', version='2.5', validation_level=TOL)
+    c.cwe_9 = 'orig'
+    c.cwe_1 = 'id'
+    f = parse_field('1^^^^^^^^^A&B&C&D&E&F&G&H&I', name='PID_3', version='2.5', encoding_chars=dict(STD), validation_level=TOL)
+    return (c.datatype, c.to_er7(dict(STD)), f.to_er7(dict(STD)), len(c.structure_by_name), f.pid_3_10.datatype)
+
+
+def c_field_retype():
+    f = Field('PID_5', version='2.4', validation_level=TOL)
+    f.datatype = 'CE'
+    f.ce_2 = 'text'
+    g = Field('PID_5', version='2.4', validation_level=TOL)
+    g.xpn_2 = 'N'
+    return (f.to_er7(dict(STD)), g.to_er7(dict(STD)), g.datatype)
+
+
+CALLS = [c_zfield_datatypes, c_component_retype, c_component_cx10, c_field_retype, c_parse25_tol, c_parse25_strict_nogroups, c_parse27_strict, c_parse23_tol, c_parse24_bad_tol, c_parse24_bad_strict,
          c_segment_ec, c_segment_longbad_tol, c_segment_bad_strict, c_field, c_component, c_subcomponent, c_message_build,
          c_message_build_27, c_segment_build, c_component_cm, c_component_st25, c_subcomponent_value, c_factory_dt,
          c_factory_fallback, c_factory_strict_bad, c_textual_27, c_is_base, c_parse_lists]
